@@ -22,3 +22,5 @@ REGISTRY["ark_element"] = ("arkcurve", "element")
 REGISTRY["ark_elligator"] = ("arkcurve", "elligator")
 REGISTRY["min_element"] = ("mincurve", "element")
 REGISTRY["consts"] = ("consts", None)
+REGISTRY["r1cs_sound"] = ("r1cs", "sound")
+REGISTRY["r1cs_compl"] = ("r1cs", "compl")
